@@ -764,6 +764,11 @@ func vRunLife(c *vCase) {
 		case 0, 1: // repeated start/stop
 			n := 2 + r.Intn(4)
 			for i := 0; i < n && !x.dead; i++ {
+				if i > 0 && l.nchan > 0 {
+					l.nchan = vPick(r, 2, 3, 5, 6, 9) // the same object configured with fewer or more channels than in its last run
+					x.note("next run with %d channels", l.nchan)
+					c.Cov("restarts_with_other_channel_count", 1)
+				}
 				if !x.start(true) {
 					break
 				}
